@@ -323,7 +323,9 @@ func runC16(c *Ctx) {
 	c.Rule("O16.2", "kinds agree modulo pointer/optional: string/int/bool/float, []T, map[K]V, and block (struct) vs struct or plugin")
 	c.Rule("O16.3", "every decodable field of the paired config types has an HCL counterpart, except the named YAML-only fields")
 	c.Rule("O16.5", "both notations end in the same decoder: ConvertHCLToAmmo and ParseAmmoConfig return DecodeMap's result; ReadAmmoConfig reaches ParseHCLFile+ConvertHCLToAmmo only on the .hcl suffix edge and ParseAmmoConfig on the YAML edge; DecodeMap decodes through config.DecodeAndValidate into AmmoConfig")
+	c.Rule("O16.7", "each description is parsed from its own bytes: hclparse.Parser remembers every file it parsed under the file's name and answers a second ParseHCL for that name from its memory without looking at the bytes, so the parser that parses an ammo file is created for that call (hclparse.NewParser() in the same function), never a package-level or otherwise shared one")
 	c.Rule("O16.6", "locals are fully evaluated before the body is decoded: decodeLocals dominates gohcl.DecodeBody and its context is the one passed; every locals block is evaluated against the locals accumulated so far, and a later definition of a name replaces the earlier one (as YAML key order does)")
+	c16OwnParser(c)
 	P := c.P
 	pk := P.Pkg("components/providers/scenario/config")
 	if pk == nil {
@@ -549,4 +551,29 @@ func kindSubsumes(cfg, hcl string) bool {
 		}
 	}
 	return false
+}
+
+
+// c16OwnParser decides O16.7.
+func c16OwnParser(c *Ctx) {
+	P := c.P
+	n := 0
+	for _, g := range P.PandoraFuncs() {
+		if !IsProdFile(P.File(g.Pos())) {
+			continue
+		}
+		EachInstr(g, func(in ssa.Instruction) {
+			cl, ok := in.(*ssa.Call)
+			if !ok || !MatchCC(&cl.Call, Spec{"github.com/hashicorp/hcl/v2/hclparse", "Parser", "ParseHCL"}, Spec{"github.com/hashicorp/hcl/v2/hclparse", "Parser", "ParseHCLFile"}, Spec{"github.com/hashicorp/hcl/v2/hclparse", "Parser", "ParseJSON"}) {
+				return
+			}
+			n++
+			own := DerivesOnly(cl.Call.Args[0], false, func(v ssa.Value) bool {
+				c2, _ := CallOfValue(v)
+				return c2 != nil && c2.Parent() == g && MatchCC(&c2.Call, Spec{"github.com/hashicorp/hcl/v2/hclparse", "", "NewParser"})
+			})
+			c.Check(own, "O16.7", fk(g)+":parser-made-for-this-file", cl.Pos(), "the hclparse.Parser must be created in the function that parses the file: a shared parser returns the first description it saw under a file name for every later one")
+		})
+	}
+	c.Floor("O16.7", "hclparse.Parser parse calls", n, 1)
 }
